@@ -544,6 +544,8 @@ func conc(cases []Case, tr *vh.Trace, workers int, millis int) {
 		preps[i] = prepare(c)
 	}
 	deadline := time.Now().Add(time.Duration(millis) * time.Millisecond)
+	hard := time.Now().Add(30 * time.Second)
+	const minCalls = 6
 	var wg sync.WaitGroup
 	start := make(chan struct{})
 	type seen struct {
@@ -558,7 +560,10 @@ func conc(cases []Case, tr *vh.Trace, workers int, millis int) {
 			defer wg.Done()
 			p := preps[w%len(preps)]
 			<-start
-			for time.Now().Before(deadline) && len(results[w]) < 8 {
+			calls := 0
+			// for `millis` ms, and on a loaded machine until every worker has made minCalls calls (at most 30 s)
+			for (time.Now().Before(deadline) || (calls < minCalls && time.Now().Before(hard))) && len(results[w]) < 8 {
+				calls++
 				out, err := call(p)
 				found := false
 				for _, s := range results[w] {
